@@ -6,7 +6,8 @@ R1 == [p \in P2 |-> 1]
 \* one tunnel transfer: in-band noise on both sides, data around ACT / CFG / END in the tunnel
 SrvT1 == << <<TRIGT>>, <<21>> >>
 CliT1 == << <<11>> >>
-CT1 == [p \in P2 |-> << <<ACTT, 1>>, <<2>>, <<3, END>> >>]
+CT1 == [p \in P2 |-> << <<ACTT, 1>>, <<3, END>> >>]
+CT1b == [p \in P2 |-> << <<ACTT, 1>>, <<2>>, <<3, END>> >>]
 ST1 == [p \in P2 |-> << <<CFG, 5>>, <<6>> >>]
 Yes1 == <<TRUE>>
 No1 == <<FALSE>>
@@ -21,12 +22,28 @@ STref == [p \in P2 |-> << <<6>> >>]
 \* the server ends the transfer (fail line through the tunnel); undecodable CFG
 STend == [p \in P2 |-> << <<CFG, 5>>, <<6, END>> >>]
 CTnoend == [p \in P2 |-> << <<ACTT, 1>>, <<2>> >>]
-STbad == [p \in P2 |-> << <<5, BADCFG, 6>> >>]
+STbad == [p \in P2 |-> << <<BADCFG, 6>> >>]
 \* tunnel, then in-band, then tunnel through the same relay
 R3 == [p \in P2 |-> IF p = 1 THEN 1 ELSE 3]
 Srv3 == << <<TRIGT>>, <<-13>>, <<-12>>, <<-28>> >>
-Cli3 == << <<11>>, <<-11>>, <<12, -14>> >>
-CT3 == [p \in P2 |-> IF p = 1 THEN << <<ACTT>>, <<3, END>> >> ELSE << <<-29>>, <<4, -24>> >>]
-ST3 == [p \in P2 |-> IF p = 1 THEN << <<CFG, 6>> >> ELSE << <<-22, 7>> >>]
+Cli3 == << <<11>>, <<-11>>, <<12, -14>>, <<13>> >>
+CT3 == [p \in P2 |-> IF p = 1 THEN << <<ACTT>>, <<3>> >> ELSE << <<-29, 4>> >>]
+ST3 == [p \in P2 |-> IF p = 1 THEN << <<CFG, 6>>, <<END>> >> ELSE << <<7>> >>]
 Yes3 == <<TRUE, TRUE, TRUE>>
+YYN == <<TRUE, TRUE, FALSE>>
+\* a trigger with a port, nobody dials, the transfer runs in-band and the server ends it
+R9 == [p \in P2 |-> 9]
+SrvFb == << <<TRIGT>>, <<CFG, 21>>, <<22, END>> >>
+CliFb == << <<ACT, 11>>, <<12>> >>
+\* thorough: more data and noise
+CliT2 == << <<11>>, <<12>> >>
+SrvT2 == << <<20, TRIGT>>, <<21>>, <<22>> >>
+CT2 == [p \in P2 |-> << <<ACTT, 1>>, <<2>>, <<3>>, <<4, END>>, <<7>> >>]
+ST2 == [p \in P2 |-> << <<CFG, 5>>, <<6>>, <<8>> >>]
+CTcas == [p \in P2 |-> << <<ACTT, 1>>, <<3, END>> >>]
+STcas == [p \in P2 |-> << <<CFG, 5>>, <<6>> >>]
+Srv3b == << <<TRIGT>>, <<21>>, <<-13>>, <<-12, 22>>, <<-28>>, <<23>> >>
+Cli3b == << <<11>>, <<-11, 14>>, <<12, -14>>, <<13>> >>
+CT3b == [p \in P2 |-> IF p = 1 THEN << <<ACTT, 1>>, <<3, END>> >> ELSE << <<-29>>, <<4>>, <<-24>> >>]
+ST3b == [p \in P2 |-> IF p = 1 THEN << <<CFG, 6>>, <<8>> >> ELSE << <<-22, 7>>, <<9>> >>]
 =============================================================================
